@@ -106,6 +106,7 @@ def parsePolicy' (s : String) : Option (List WPol) :=
     | 't' :: r => (String.ofList r).toNat?.map (⟨·, .timeout⟩)
     | 'e' :: r => (String.ofList r).toNat?.map (⟨·, .hard⟩)
     | 'c' :: r => (String.ofList r).toNat?.map (⟨·, .closed⟩)
+    | 'g' :: _ => some ⟨0, .gate⟩
     | _ => none
 
 def storeLine (s : S) : String :=
@@ -126,7 +127,15 @@ def ctrLine (s : S) : String :=
 
 /-- after an operation by another actor: a parked reader whose connection got closed runs on -/
 def wakeReader (s : S) : S × List String :=
-  if s.parked then
+  if s.readerCancelled then
+    let (s, r) := ({ s with readerCancelled := false }).finishRs (.err (mkErr ["closed"]))
+    (s, [rsStr r])
+  else if s.parkedHs.isSome then
+    let (s', r) := s.readSlices
+    match r with
+    | .parked => (s', [])
+    | r => (s', [rsStr r])
+  else if s.parked then
     let woke : Bool := match s.rd? with
       | some rd => rd.closed || rd.inq != [.block]
       | none => false
@@ -171,6 +180,7 @@ def sessStep (s : S) (f : List String) : S × List String :=
       ({ s with dials := s.dials ++ [{ ok := true, reply := if r.isEmpty then [] else [.data r], wpol := pol }] }, [])
     | _, _ => (s, ["bad-op dial"])
   | ["dial", "fail"] => ({ s with dials := s.dials ++ [{ ok := false }] }, [])
+  | ["dial", "block"] => ({ s with dials := s.dials ++ [{ ok := true, block := true }] }, [])
   | "wpol" :: pol :: _ =>
     match parsePolicy' pol, s.conn with
     | some p, some c => ({ s with conn := some { c with wpol := p } }, [])
@@ -192,7 +202,11 @@ def sessStep (s : S) (f : List String) : S × List String :=
   | ["dfail"] => ({ s with fDel := true }, [])
   | ["lfail"] => ({ s with fLoad := true }, [])
   | ["rs"] =>
-    if s.parked then
+    if s.parkedDial then done s ["rs parked"] false
+    else if s.parkedHs.isSome then
+      let (s, r) := s.readSlices
+      done s [rsStr r] false
+    else if s.parked then
       -- the call is still outstanding: report what it does now
       let woke : Bool := match s.rd? with | some rd => rd.closed || rd.inq != [.block] | none => false
       if woke then
@@ -212,7 +226,7 @@ def sessStep (s : S) (f : List String) : S × List String :=
       let (s, e, ex) := s.publishPersisted (if op == "pal" then 1 else 2) (retain == "1") t m
       match ex with
       | some ex => done s [s!"pub ok ex={ex}"]
-      | none => done s [s!"pub err {errStr e}"]
+      | none => if e.contains "unsupported" then (s, ["unsupported write gate"]) else done s [s!"pub err {errStr e}"]
     | _, _ => (s, ["bad-op " ++ op])
   | ["call", tag, "pub", retain, topic, msg] =>
     match ofHex topic, ofHex msg with
@@ -243,10 +257,22 @@ def sessStep (s : S) (f : List String) : S × List String :=
     match s.quit tag with
     | (s, some e) => done (s.emit (.ret tag e)) []
     | (s, none) => done s [s!"quit {tag} unknown"]
-  | ["close"] => done s.closeClient ["close ok"]
+  | ["close"] =>
+    match s.closeCall "close" false with
+    | (s, .ret _) => done s ["close ok"]
+    | (s, .blocked) => done s ["blocked close"]
+    | (s, .unsupported w) => (s, [s!"unsupported {w}"])
   | ["disconnect"] =>
-    let (s, e) := s.disconnect
-    done s [s!"disconnect {errStr e}"]
+    match s.closeCall "disconnect" true with
+    | (s, .ret e) => if e.contains "unsupported" then (s, ["unsupported write gate"]) else done s [s!"disconnect {errStr e}"]
+    | (s, .blocked) => done s ["blocked disconnect"]
+    | (s, .unsupported w) => (s, [s!"unsupported {w}"])
+  | ["wgo", o] =>
+    -- the script opens the write gate: ok, or an outcome like t3 / e0 / c0
+    let pol : Option (Option WPol) := if o == "ok" then some none else (parsePolicy' o).bind fun l => l.head?.map some
+    match pol with
+    | some x => done (s.release x) []
+    | none => (s, ["bad-op wgo"])
   | ["counters"] => (s, [ctrLine s])
   | ["store"] => (s, [storeLine s])
   | ["damage", "alter", key, off, val] =>
